@@ -154,7 +154,7 @@ pub fn spec_for(property: &str) -> Option<CheckSpec> {
         "C10" => CheckSpec {
             property: "C10",
             level: "fault_enumeration",
-            parts: vec![part("codec", 20_000, 1_000_000)],
+            parts: vec![part("codec", 20_000, 1_000_000), part("recon", 300, 10_000)],
             assumptions: vec![
                 "every codec pair is driven through the real tokio_util FramedRead over a scripted AsyncRead (SimPipe); the encoded stream comes from the product's own encoders".to_string(),
                 "corruptions are aimed with harness knowledge of the wire layout (tag bytes, length fields, Recon body regions); the oracle for corrupted streams demands only: no panic/abort, termination, an error for undefined tags (where the decoder has such an error path), no message from a frame that can never complete, exact decoding of the frames before the corruption".to_string(),
